@@ -51,8 +51,8 @@ type propSpec struct {
 }
 
 var specs = map[string]propSpec{
-	"C08": {Subs: []sub{{ID: "C08", QuickN: 12000, ThorN: 600000}}},
-	"C09": {Subs: []sub{{ID: "C09", Race: true, QuickN: 2500, ThorN: 60000}}},
+	"C08": {Subs: []sub{{ID: "C08", QuickN: 60000, ThorN: 1500000}}},
+	"C09": {Subs: []sub{{ID: "C09", Race: true, QuickN: 20000, ThorN: 400000}}},
 }
 
 type statsFile struct {
@@ -103,6 +103,9 @@ func trouble(format string, args ...any) {
 }
 
 var scratch string
+
+// knownIDs are the findings listed with status "known".
+var knownIDs []string
 
 // shrinkTime bounds rapid's minimisation per failing worker.
 var shrinkTime = "8s"
@@ -186,6 +189,7 @@ func main() {
 			needPlain = true
 		}
 	}
+	loadFindings()
 	if replay != "" {
 		os.Exit(doReplay(id, spec, replay))
 	}
@@ -277,7 +281,8 @@ func runWorker(race bool, cpu int, outDir string, args ...string) (string, error
 		"GOMAXPROCS="+env("VERIF_GOMAXPROCS", "1"),
 		"GORACE=suppress_equal_stacks=0 suppress_equal_addresses=0 halt_on_error=0 exitcode=0 log_path="+racelog,
 		"VERIF_RACELOG="+racelog,
-		"VERIF_SHRINKTIME="+env("VERIF_SHRINKTIME", shrinkTime))
+		"VERIF_SHRINKTIME="+env("VERIF_SHRINKTIME", shrinkTime),
+		"VERIF_KNOWN="+strings.Join(knownIDs, ","))
 	full := append([]string{"-c", strconv.Itoa(cpu % runtime.NumCPU()), workerPath(race)}, args...)
 	return run(outDir, e, "taskset", full...)
 }
@@ -390,15 +395,36 @@ func runCheck(id string, spec propSpec, tier string, seed uint64) int {
 	}
 
 	// Known findings: replay the witnesses first.
-	var ffs findingsFile
-	if b, err := os.ReadFile(filepath.Join(verifDir, "known_findings.json")); err == nil {
-		if err := json.Unmarshal(b, &ffs); err != nil {
-			trouble("known_findings.json: %v", err)
-		}
-	}
+	ffs := loadFindings()
 	knownLines := map[string]string{}
 	knownActive := map[string]bool{}
 	for _, f := range ffs.Findings {
+		if f.Status == "fixed" {
+			// A fixed entry suppresses nothing; its witness is replayed as a
+			// regression test and must pass on the repaired tree.
+			for _, p := range f.Property {
+				if p != id {
+					continue
+				}
+				for subID, w := range f.Witness {
+					if _, ok := subFor(spec, subID); !ok {
+						continue
+					}
+					code, out := replayOnce(spec, filepath.Join(verifDir, w), "20s")
+					switch code {
+					case 0:
+					case 1:
+						fmt.Printf("the witness of fixed finding %s fails again:\n%s", f.ID, out)
+						dst := saveReplay(id, seed, "witness-"+f.ID, filepath.Join(verifDir, w))
+						fmt.Printf("VIOLATION property=%s replay=%s\n", id, dst)
+						return 1
+					default:
+						trouble("replaying the witness of fixed finding %s failed (exit %d):\n%s", f.ID, code, out)
+					}
+				}
+			}
+			continue
+		}
 		if f.Status != "known" {
 			continue
 		}
@@ -556,6 +582,22 @@ func runCheck(id string, spec propSpec, tier string, seed uint64) int {
 		return 1
 	}
 	return 0
+}
+
+func loadFindings() findingsFile {
+	var ffs findingsFile
+	if b, err := os.ReadFile(filepath.Join(verifDir, "known_findings.json")); err == nil {
+		if err := json.Unmarshal(b, &ffs); err != nil {
+			trouble("known_findings.json: %v", err)
+		}
+	}
+	knownIDs = nil
+	for _, f := range ffs.Findings {
+		if f.Status == "known" {
+			knownIDs = append(knownIDs, f.ID)
+		}
+	}
+	return ffs
 }
 
 func hangInCodeUnderTest(out string) bool {
